@@ -9,35 +9,40 @@
 (*                    bytes off..off+n-1 of what side s produced iff ok      *)
 (*   Close s          the relay closed connection s                          *)
 (*   Returned cA cB   copyLoop returned; were a / b closed at that instant   *)
-(*   Stuck            copyLoop has not returned, both copiers are blocked,   *)
-(*                    nothing is deliverable                                 *)
+(*   WStall s / Drain s   writes to side s block (its peer stopped reading:  *)
+(*                    back-pressure) / flow again                            *)
+(*   Stuck bA bB      copyLoop has not returned, both copiers are blocked,   *)
+(*                    nothing is deliverable; bX: a Write to connection X is *)
+(*                    blocked by back-pressure right now                     *)
 EXTENDS Integers, Sequences, TLC, Json
-VARIABLES prod, fwd, ended, wfail, closed, returned, l
-tvars == <<prod, fwd, ended, wfail, closed, returned, l>>
+VARIABLES prod, fwd, ended, wfail, wstall, closed, returned, l
+tvars == <<prod, fwd, ended, wfail, wstall, closed, returned, l>>
 Trace == ndJsonDeserialize("trace.ndjson")
 Sides == {"A", "B"}
 Other(s) == IF s = "A" THEN "B" ELSE "A"
 Healthy(s) == ended[s] = "no" /\ ~wfail[s]
 Fresh == /\ prod = [s \in Sides |-> 0] /\ fwd = [s \in Sides |-> 0] /\ ended = [s \in Sides |-> "no"]
          /\ wfail = [s \in Sides |-> FALSE] /\ closed = [s \in Sides |-> FALSE] /\ returned = FALSE
+         /\ wstall = [s \in Sides |-> FALSE]
 Is(e) == l <= Len(Trace) /\ Trace[l].event = e
 TInit == Fresh /\ l = 1 /\ TLCSet(1, 0)
 TReset == /\ Is("Reset") /\ l' = l + 1
           /\ prod' = [s \in Sides |-> 0] /\ fwd' = [s \in Sides |-> 0] /\ ended' = [s \in Sides |-> "no"]
           /\ wfail' = [s \in Sides |-> FALSE] /\ closed' = [s \in Sides |-> FALSE] /\ returned' = FALSE
+          /\ wstall' = [s \in Sides |-> FALSE]
 TProduce == /\ Is("Produce") /\ l' = l + 1
             /\ prod' = [prod EXCEPT ![Trace[l].s] = @ + Trace[l].n]
-            /\ UNCHANGED <<fwd, ended, wfail, closed, returned>>
+            /\ UNCHANGED <<fwd, ended, wfail, closed, returned, wstall>>
 TEnd == /\ Is("End") /\ l' = l + 1 /\ ended' = [ended EXCEPT ![Trace[l].s] = Trace[l].k]
-        /\ UNCHANGED <<prod, fwd, wfail, closed, returned>>
+        /\ UNCHANGED <<prod, fwd, wfail, closed, returned, wstall>>
 TWFail == /\ Is("WFail") /\ l' = l + 1 /\ wfail' = [wfail EXCEPT ![Trace[l].s] = TRUE]
-          /\ UNCHANGED <<prod, fwd, ended, closed, returned>>
+          /\ UNCHANGED <<prod, fwd, ended, closed, returned, wstall>>
 \* forwarded data is the next contiguous, unaltered range of what the source produced
 TFwd == /\ Is("Fwd") /\ l' = l + 1
         /\ LET s == Trace[l].s IN
              /\ Trace[l].ok /\ Trace[l].off = fwd[s] /\ fwd[s] + Trace[l].n <= prod[s]
              /\ fwd' = [fwd EXCEPT ![s] = @ + Trace[l].n]
-        /\ UNCHANGED <<prod, ended, wfail, closed, returned>>
+        /\ UNCHANGED <<prod, ended, wfail, closed, returned, wstall>>
 \* a connection is closed only once some side has ended / failed, and the connection of a still
 \* healthy side is closed only after everything the ended side produced has been forwarded to it
 TClose == /\ Is("Close") /\ l' = l + 1
@@ -45,16 +50,24 @@ TClose == /\ Is("Close") /\ l' = l + 1
                /\ \E t \in Sides : ~Healthy(t)
                /\ (ended[s] # "no" /\ ~wfail[s] /\ Healthy(o)) => fwd[s] = prod[s]
                /\ closed' = [closed EXCEPT ![o] = TRUE]
-          /\ UNCHANGED <<prod, fwd, ended, wfail, returned>>
+          /\ UNCHANGED <<prod, fwd, ended, wfail, returned, wstall>>
 TReturned == /\ Is("Returned") /\ l' = l + 1
              /\ closed["A"] /\ closed["B"] /\ ~returned
              /\ Trace[l].closedA /\ Trace[l].closedB      \* snapshot taken at the instant of the return
-             /\ returned' = TRUE /\ UNCHANGED <<prod, fwd, ended, wfail, closed>>
+             /\ returned' = TRUE /\ UNCHANGED <<prod, fwd, ended, wfail, closed, wstall>>
 \* quiescent without having returned is legitimate only while nothing has ended and no write can have failed
-TStuck == /\ Is("Stuck") /\ l' = l + 1
-          /\ \A s \in Sides : ended[s] = "no" /\ (wfail[Other(s)] => fwd[s] = prod[s])
+TWStall == /\ Is("WStall") /\ l' = l + 1 /\ wstall' = [wstall EXCEPT ![Trace[l].s] = TRUE]
+           /\ UNCHANGED <<prod, fwd, ended, wfail, closed, returned>>
+TDrain == /\ Is("Drain") /\ l' = l + 1 /\ wstall' = [wstall EXCEPT ![Trace[l].s] = FALSE]
           /\ UNCHANGED <<prod, fwd, ended, wfail, closed, returned>>
-TNext == TReset \/ TProduce \/ TEnd \/ TWFail \/ TFwd \/ TClose \/ TReturned \/ TStuck
+\* ... or while the copier that would see the end is itself held by back-pressure: it is blocked in a Write to the
+\* OTHER side, which the harness stalled (then it cannot have read the end yet)
+BlockedOn(e, x) == IF x = "A" THEN e.blockedA ELSE e.blockedB
+TStuck == /\ Is("Stuck") /\ l' = l + 1
+          /\ \A s \in Sides : \/ (ended[s] = "no" /\ (wfail[Other(s)] => fwd[s] = prod[s]))
+                               \/ (wstall[Other(s)] /\ BlockedOn(Trace[l], Other(s)))
+          /\ UNCHANGED <<prod, fwd, ended, wfail, closed, returned, wstall>>
+TNext == TWStall \/ TDrain \/ TReset \/ TProduce \/ TEnd \/ TWFail \/ TFwd \/ TClose \/ TReturned \/ TStuck
 TraceSpec == TInit /\ [][TNext]_tvars
 HW == TLCSet(1, IF l - 1 > TLCGet(1) THEN l - 1 ELSE TLCGet(1))
 TraceAccepted == IF TLCGet(1) = Len(Trace) THEN TRUE ELSE PrintT(<<"REJECTED_AFTER", TLCGet(1)>>) /\ FALSE
